@@ -255,6 +255,14 @@ def exMsg : List Chunk :=
 
 example : chunksOk exCtx exMsg = true := by decide
 example : (emitFormat false exMsg).1 = "{{a}} {:#x} {:+d}|{:>3}".toList := by decide
+example : EnvOk exCtx exEnv := by
+  intro i
+  match i with
+  | 0 => decide
+  | 1 => decide
+  | n + 2 => simp [Ctx.shape, Env.val, exCtx, exEnv, Shape.WF, Shape.contains, Shape.lo, Shape.hi, Shape.u]
+example : render true exCtx exEnv exMsg = .ok "{a} 0xc8 +197|  A".toList := by decide
+example : specText exCtx exEnv exMsg = .ok "{a} 0xc8 +197|  A".toList := by decide
 
 /-! ### F20: the compiler as found splices the spec into the format string
 
